@@ -110,9 +110,13 @@ func runLockHistory(s *stores, h *lockHistory) {
 			t0 := time.Now()
 			time.Sleep(time.Millisecond)
 			d := time.Since(t0) - time.Millisecond
-			if h.Backend == "etcd" && i%4 == 0 {
+			if i%4 == 0 {
 				t1 := time.Now()
-				_, _ = s.cli.Put(context.Background(), "/probe/"+h.Key, "x")
+				if h.Backend == "etcd" {
+					_, _ = s.cli.Put(context.Background(), "/probe/"+h.Key, "x")
+				} else {
+					_ = s.rcli.Set(context.Background(), "/probe/"+h.Key, "x", 0).Err()
+				}
 				if e := time.Since(t1); e > d {
 					d = e
 				}
